@@ -3,6 +3,7 @@
 pub mod cells;
 pub mod stacks;
 pub mod util;
+pub mod refcodec;
 pub mod archive;
 pub mod eng_layers;
 pub mod eng_writer;
@@ -10,3 +11,4 @@ pub mod eng_repair;
 pub mod eng_reader;
 pub mod eng_transfer;
 pub mod eng_tamper;
+pub mod eng_format;
